@@ -7,7 +7,7 @@ from .. import gen, lib, ref
 from ..lib import call
 
 PROP = "C01"
-PLAN = {"quick": (2400, 150), "thorough": (36000, 1500)}
+PLAN = {"quick": (2400, 150), "thorough": (24000, 1500)}
 LARGE = (0.04, 64)  # (share, largest size) of the large class of gen.kv: 17+ control points, degree up to 8
 RULE = ("case = (knot vector, control points, optional weights, number type, probe parameters); enumerated multiplicity "
         "patterns (p<=4, <=3 interior knots, 300 patterns) x knot-value sets x {polynomial, rational} x {Fraction, float} "
